@@ -8,6 +8,7 @@ expression canonicalisation, guard extraction from dominating tests, and the
 from __future__ import annotations
 
 import ast
+import weakref
 from typing import Iterable
 
 from ..cfg import NORMAL
@@ -20,10 +21,22 @@ COPY_CALLS = {"list", "set", "tuple", "sorted", "frozenset"}
 # --------------------------------------------------------------------------- names
 
 
+_DEFS: "weakref.WeakKeyDictionary[Func, dict[str, list]]" = weakref.WeakKeyDictionary()
+
+
+def _defs(f: Func, name: str):
+    per = _DEFS.get(f)
+    if per is None:
+        per = _DEFS[f] = {}
+    if name not in per:
+        per[name] = defs_of(f, name)
+    return per[name]
+
+
 def deref(f: Func, e: ast.AST, depth: int = 5) -> ast.AST:
     """Follow a local name to the expression it was (uniquely, plainly) assigned."""
     while depth > 0 and isinstance(e, ast.Name):
-        ds = defs_of(f, e.id)
+        ds = _defs(f, e.id)
         if len(ds) == 1 and ds[0].kind in ("assign", "walrus") and ds[0].index is None and ds[0].value is not None:
             e = ds[0].value
             depth -= 1
@@ -78,20 +91,47 @@ def ids_at(f: Func, node: ast.AST) -> list[int]:
     return g.node_containing(node)
 
 
+def loop_heads(g, nid: int) -> list[int]:
+    """CFG head nodes (for: iter node, while: test node) of the loops lexically containing node nid,
+    innermost first; a loop head is not contained in its own loop."""
+    from ..model import ancestors, parent
+
+    n = g.nodes[nid]
+    cur = n.ast
+    if cur is None:
+        return []
+    if n.kind == "test":
+        p = parent(cur)
+        if isinstance(p, ast.While) and p.test is cur:
+            cur = p
+    heads: list[int] = []
+    for anc in ancestors(cur):
+        if isinstance(anc, (ast.FunctionDef, ast.AsyncFunctionDef, ast.Lambda)):
+            break
+        if isinstance(anc, (ast.For, ast.AsyncFor)):
+            heads.extend(g.ids_of(anc))
+        elif isinstance(anc, ast.While):
+            heads.extend(g.ids_of(anc.test))
+    return heads
+
+
 def must_follow(g, a_ids: list[int], b_ids: list[int]) -> bool:
-    """Once (any copy of) a executed, b executes before a executes again or the function returns."""
+    """Once (any copy of) a executed, b executes before the function returns and before the current
+    iteration of any loop around b ends (normal edges)."""
     if not a_ids or not b_ids:
         return False
+    targets = {g.exit}
+    for b in b_ids:
+        targets.update(loop_heads(g, b))
     for a in a_ids:
         src = [a]
-        n = g.nodes[a]
-        if n.kind == "iter":
+        if g.nodes[a].kind == "iter":
             # a loop as anchor: what follows the loop (not its own body cycle)
             src = [b for b, k in g.succ[a] if k == "f"] or [a]
-            if any(s in b_ids for s in src):
-                continue
         for s in src:
-            if g.path(s, [g.exit, a], avoid=b_ids, kinds=NORMAL) is not None:
+            if s in b_ids:
+                continue
+            if s in targets or g.path(s, targets, avoid=b_ids, kinds=NORMAL) is not None:
                 return False
     return True
 
